@@ -31,7 +31,7 @@ type Perturber struct {
 	Only map[string]bool
 	// OnPoint, if set, is called for every hit before perturbing (must be cheap and goroutine-safe).
 	OnPoint func(name string)
-	total atomic.Int64
+	total   atomic.Int64
 }
 
 const orderCap = 256
